@@ -709,14 +709,27 @@ def r18_2(chk: Check) -> None:
     stores = [(st, sm) for st, sm in stores if sm is not None and isinstance(st.targets[0].value, ast.Name)]
     bases = {sm[1][0] for _, sm in stores}
     res_names: dict[str, list] = {}
+    allocs: dict = {}
     for st in own_nodes(fi.node):
         if isinstance(st, ast.Assign) and len(st.targets) == 1 and isinstance(st.targets[0], ast.Name) and isinstance(st.value, ast.Call) \
-                and (dotted(st.value.func) or "").endswith("empty"):
-            offs = _shape_offsets(S, fi, M, kwarg(st.value, "shape", 0), bases)
+                and (dotted(st.value.func) or "").split(".")[-1] in ("empty", "zeros", "ones", "full", "empty_like", "zeros_like", "ones_like", "full_like"):
+            like = (dotted(st.value.func) or "").endswith("_like")
+            shp = kwarg(st.value, "shape", None) if like else kwarg(st.value, "shape", 0)
+            if shp is None:
+                continue
+            offs = _shape_offsets(S, fi, M, shp, bases)
             if len(offs) >= 2:
                 res_names[st.targets[0].id] = offs
+                allocs[st.targets[0].id] = st
     if not res_names:
         raise AnchorMissing("_evaluateOutOfBounds: result-shape arms not found")
+    # the buffer holds function values: its dtype must not depend on the dtype of the input (an integer x would truncate every extrapolated value)
+    for R, st in allocs.items():
+        d = kwarg(st.value, "dtype", None)
+        like = (dotted(st.value.func) or "").endswith("_like")
+        okd = (d is None and not like) or (d is not None and (eqx(d, "float") or eqx(d, "np.float64") or eqx(d, "np.double") or eqx(d, "'float64'")))
+        chk.ob("R18.2", fi.where(st), "the out-of-range result buffer is a float array whatever the dtype of the input (np.empty(shape) / dtype=float; a *_like(x) buffer "
+               "inherits an integer dtype and truncates the values)", okd, n(st)[:80], key="buffer-dtype")
     k_free = 6
     for st, (m, info) in sorted(stores, key=lambda p: (-p[0].lineno, -p[0].col_offset)):
         R = st.targets[0].value.id
@@ -736,7 +749,7 @@ def r18_2(chk: Check) -> None:
                f"in every arm (rank(x)+{min_off} for scalar-valued functions)", len(extra) <= min_off,
                f"needs rank(x)+{len(extra)}, result has rank(x)+{min_off} when _RETURN_VALUE_COUNT == 1",
                key=f"rank|{shown}|{callee}|{k}")
-    chk.floor("R18.2", 6)
+    chk.floor("R18.2", 7)
 
 
 # ------------------------------------------------------------------ values of a local per branch
@@ -1282,3 +1295,7 @@ def rules(chk: Check) -> None:
     chk.src.cls(IF)
     for grp in (r18_1, r18_2, r18_3, r18_4, r18_5, r18_6, r18_7):
         chk.stage(grp, chk)
+    # R18.8: the below / above masks of one call are taken against one state of the table (an adaptive extension in the middle of the call moves the
+    # range ends: a mask computed afterwards leaves inputs between the old and the new end in neither mask)
+    from .shared import range_masks_are_snapshot
+    chk.stage(range_masks_are_snapshot, chk, "R18.8")
